@@ -154,7 +154,7 @@ PROPS = {
         'claim': 'Exhaustive within scope: closure over alloc (0..4 elements, unrepresentable and refused counts) / set (two external buffers) / slice (into another object and in place, bounds from {0,1,2,len-1,len,len+1,nm,nm+1,nm-off,nm-off+1,SIZE_MAX-1,SIZE_MAX,SIZE_MAX-off+1}) / unslice / reset / release on three array objects; every state audited with at() at {0,len-1,len,SIZE_MAX} against base+(off+i)*sz inside the buffer, and with allocation accounting (two live blocks per referenced buffer, no double/foreign free).',
         'note': E1_NOTE + ' Open cases accepted either way: slice(0,0) of an object without buffer, and a range past the object\'s own length but inside the buffer.',
         'technique': 'explicit-state BFS to closure on the real code vs view/buffer reference model + allocation accounting',
-        'jobs': [{'world': 'array', 'src': 'worlds/array_world.c', 'lib': ['array.c', 'memory.c'], 'flavours': RELDBG_ALWAYS}],
+        'jobs': [{'world': 'array', 'src': 'worlds/array_world.c', 'lib': ['array.c', 'memory.c'], 'flavours': RELDBG_ALWAYS}, {'world': 'big', 'src': 'worlds/big_world.c', 'lib': ['bintree.c', 'rbtree.c', 'map.c', 'dlist.c', 'slist.c', 'vector.c', 'string.c', 'array.c', 'memory.c'], 'unity': True, 'flavours': BOTH}],
         'rule': 'breadth-first search to closure; a state is non-trivial when some object is a view with a non-zero offset',
         'assumptions': ASSUME_E1,
     },
@@ -163,7 +163,7 @@ PROPS = {
         'claim': 'Exhaustive within scope: closure over alloc (with clear callback, and of size 0) / share / swap / reset / weak_from / lock / weak_reset / weak_swap on 3 (thorough 4) shared and 2 weak pointer objects, and alloc / release / swap / reset on 2 unique pointer objects; for every single operation the sequence of destruction events (clear callback, free of the managed block, free of the bookkeeping block) observed through the callback and the allocation layer must equal the reference model\'s prediction for that operation - which pins never-earlier and never-later; get(), unique() and the number of live blocks are compared in every state.',
         'note': E1_NOTE + ' lock() resets its target first (as documented by the code), so locking into the last owner of the same allocation destroys it and yields an empty pointer.',
         'technique': 'explicit-state BFS to closure on the real code vs reference-count model with per-operation destruction-event oracle',
-        'jobs': [{'world': 'ptr', 'src': 'worlds/ptr_world.c', 'lib': ['memory.c'], 'flavours': RELDBG_ALWAYS}],
+        'jobs': [{'world': 'ptr', 'src': 'worlds/ptr_world.c', 'lib': ['memory.c'], 'flavours': RELDBG_ALWAYS}, {'world': 'big', 'src': 'worlds/big_world.c', 'lib': ['bintree.c', 'rbtree.c', 'map.c', 'dlist.c', 'slist.c', 'vector.c', 'string.c', 'array.c', 'memory.c'], 'unity': True, 'flavours': BOTH}],
         'rule': 'breadth-first search to closure; a state is non-trivial when some allocation has at least two references (or, for unique pointers, some pointer owns memory)',
         'assumptions': ASSUME_E1,
     },
@@ -223,11 +223,11 @@ PROPS = {
     'C20': {
         'level': 'exploration',
         'engine': 'confx',
-        'claim': 'Complete enumeration of a finite program family: 42 (entry point, argument position) pairs - every function of memory.h and array.h that reads, transfers or releases a guarded / unique / shared / weak pointer or an array object - x every object state (NULL / non-NULL; empty / owning / co-owned; empty / weak to live / weak to dead; empty / whole / slice) x copy kind (struct assignment, memcpy, relocation with the original storage scrubbed): the call on the stray copy must end in abort() (not return, not an assertion, not a sanitizer report), and the same call on the original object must still work. The table is cross-checked against the declarations gcc -aux-info finds in the two headers; declared entry points missing from the table are reported in the evidence. The converse (properly moved objects never abort) is the no-unexpected-abort oracle of the C05 and C14 closures.',
+        'claim': 'Complete enumeration of a finite program family: 42 (entry point, argument position) pairs - every function of memory.h and array.h that reads, transfers or releases a guarded / unique / shared / weak pointer or an array object - x every object state (NULL / non-NULL; empty / owning / co-owned; empty / weak to live / weak to dead; empty / whole / slice) x copy kind (struct assignment, memcpy, relocation with the original storage scrubbed): the call on the stray copy must end in abort() (not return, not an assertion, not a sanitizer report), and the same call on the original object must still work. The table is cross-checked against the declarations gcc -aux-info finds in the two headers; declared entry points missing from the table are reported in the evidence. The converse (properly moved objects never abort) is decided by the same check: the C05 and C14 closure searches (ptr and array worlds) run with their no-unexpected-abort oracle attributed to C20, every interleaving of the C06 scheduler scenarios runs with abort() inside the library as the only oracle, and 65535 to 70000 simultaneous owners / weak references / array views of one allocation are created and released with the library functions only.',
         'note': 'Documented non-aborting calls are excluded: *_init, cstl_guarded_ptr_set and the destination of cstl_guarded_ptr_copy only write the guard (re-stamping it), cstl_array_size never touches the pointer.',
-        'technique': 'exhaustive enumeration of entry point x argument position x object state x copy kind with an abort/return oracle under ASan',
-        'jobs': [{'world': 'stray', 'src': 'worlds/stray_world.c', 'gen': 'lib/gen_decls.py', 'lib': ['memory.c', 'array.c'], 'flavours': RELDBG_ALWAYS}],
-        'rule': 'one evaluation = one call on a stray copy or on the original; non-trivial = calls on stray copies; all points are distinct',
+        'technique': 'exhaustive enumeration of entry point x argument position x object state x copy kind with an abort/return oracle under ASan; explicit-state closure search and exhaustive interleaving exploration of properly moved pointers with a no-abort oracle',
+        'jobs': [{'world': 'stray', 'src': 'worlds/stray_world.c', 'gen': 'lib/gen_decls.py', 'lib': ['memory.c', 'array.c'], 'flavours': RELDBG_ALWAYS}, {'world': 'ptr', 'src': 'worlds/ptr_world.c', 'lib': ['memory.c'], 'flavours': RELDBG_ALWAYS}, {'world': 'array', 'src': 'worlds/array_world.c', 'lib': ['array.c', 'memory.c'], 'flavours': RELDBG_ALWAYS}, {'world': 'c06', 'src': 'worlds/c06_world.c', 'lib': ['memory.c'], 'san': ['-g', '-fsanitize=thread'], 'wsan': ['-g'], 'extra_src': ['engine/sched.c'], 'link': ['-Wl,--wrap=malloc,--wrap=calloc,--wrap=realloc,--wrap=free,--wrap=abort,--wrap=sched_yield'], 'flavours': RELDBG_ALWAYS}, {'world': 'big', 'src': 'worlds/big_world.c', 'lib': ['bintree.c', 'rbtree.c', 'map.c', 'dlist.c', 'slist.c', 'vector.c', 'string.c', 'array.c', 'memory.c'], 'unity': True, 'flavours': BOTH}],
+        'rule': 'stray world: one evaluation = one call on a stray copy or on the original, non-trivial = calls on stray copies, all points distinct; ptr/array worlds: breadth-first closure as for C05/C14; c06 world: every interleaving of every scenario as for C06; big world: listed large cases',
         'assumptions': ['abort() is observed through ld --wrap=abort (longjmp back into the harness)'],
     },
 }
